@@ -75,6 +75,8 @@ class C13(ProgramProperty):
         for k, v in bij:
             ctx.append([k, {"s": v}] if rng.random() < 0.6 else [k, {"pd": v}])
         for k, v in [("@base", {"s": cps("http://base/")}), ("@vocab", {"s": cps("http://vocab/")}), ("", {"s": cps("http://empty/")}),
+                     # keys that start with '@' without being JSON-LD keywords are skipped all the same
+                     ("@foo", {"s": cps("http://at-foo/")}), ("@Base", {"pd": cps("http://at-base/")}), ("@", {"s": cps("http://at/")}),
                      ("num", {"o": 5}), ("nul", {"o": None}), ("plain", {"o": {"@id": "http://x/"}}),
                      ("notprefix", {"o": {"@id": "http://y/", "@prefix": False}}), ("lst", {"o": ["a"]})]:
             if rng.random() < 0.4 and not any(uncps(k2) == k for k2, _ in bij):
